@@ -137,6 +137,9 @@ def run(ctx):
     from .c13 import check_zero_com
     check_zero_com(ctx, md, "R5")
     ctx.rule("R6", "batch-row discipline in the writers: per-molecule values are indexed by the molecule id that names the file/handle")
+    ctx.rule("R7", "every molecule's force and energy come from its own row: no per-molecule quantity (sizes, active state) is taken from row 0 for the whole batch (representative-row rule)")
+    from .c05 import check_rep_rows
+    check_rep_rows(ctx, "R7")
     check_writer_row_index(ctx, md, "R6")
 
 
@@ -356,6 +359,27 @@ def check_writer_row_index(ctx, md, rid):
                 elts = loop.target.elts if isinstance(loop.target, ast.Tuple) else [loop.target]
                 mol_var = [elts[pos[0]].id] if pos and isinstance(elts[pos[0]], ast.Name) else []
                 counters = []
+                # every other zipped sequence must itself be aligned with molid (built per molid, or a whole-batch array selected by molid):
+                # zipping a whole-batch array pairs batch row k with the k-th *selected* molecule
+                fdefs = {}
+                for st_ in ast.walk(f):
+                    if isinstance(st_, ast.Assign) and len(st_.targets) == 1 and isinstance(st_.targets[0], ast.Name):
+                        fdefs.setdefault(st_.targets[0].id, []).append(st_.value)
+
+                def aligned(e, depth=0):
+                    if "molid" in norm(e):
+                        return True
+                    if isinstance(e, ast.Name) and depth < 4 and fdefs.get(e.id):
+                        return all(aligned(v, depth + 1) for v in fdefs[e.id])
+                    return False
+                for i_, a_ in enumerate(it.args):
+                    if i_ in pos:
+                        continue
+                    ctx.check(aligned(a_), rid, md, loop, q, f"zip(molid, {short(norm(a_), 40)})",
+                              f"{q}: `{short(norm(a_), 40)}` is built per selected molecule",
+                              f"{q}: `zip({norm(it.args[pos[0]]) if pos else '?'}, {short(norm(a_), 40)})` pairs the k-th selected molecule with row k of a whole-batch array "
+                              f"(`{short(norm(fdefs.get(a_.id, [a_])[0]) if isinstance(a_, ast.Name) else norm(a_), 60)}`): with molid != [0..n-1] the thermodynamic values written "
+                              f"to a molecule's file belong to another molecule")
             else:
                 mol_var = bound[:1]
                 counters = []
